@@ -56,20 +56,29 @@ def pep503(name):
     return re.sub(r"(\s|[-_.])+", "-", name).lower()
 
 
-def FakeResponse(url, status, content, content_type=None):
+def FakeResponse(url, status, content, content_type=None, compress=False):
     """a real ``requests.Response`` carrying canned bytes: ``content``, ``text`` (decoded the way requests decodes: by the
     charset of the Content-Type header, ISO-8859-1 for text/* without one), ``iter_content``, ``raise_for_status`` ..."""
     import requests
     from requests.structures import CaseInsensitiveDict
     from requests.utils import get_encoding_from_headers
+    import gzip as _gzip
+    import io as _io
+    import urllib3
     r = requests.models.Response()
     r.status_code = status
     r.url = url
-    r._content = content
-    r._content_consumed = True
     if content_type is None:
         content_type = "text/html; charset=utf-8" if content[:1] == b"<" else "application/octet-stream"
-    r.headers = CaseInsensitiveDict({"Content-Type": content_type, "Content-Length": str(len(content))})
+    # the bytes on the wire (a server may compress in transit: `Content-Encoding: gzip`); requests decodes them when
+    # `content` / `iter_content` are used, `raw` hands them out as they came
+    wire = _gzip.compress(content, mtime=0) if compress else content
+    hdrs = {"Content-Type": content_type, "Content-Length": str(len(wire))}
+    if compress:
+        hdrs["Content-Encoding"] = "gzip"
+    r.headers = CaseInsensitiveDict(hdrs)
+    r.raw = urllib3.response.HTTPResponse(body=_io.BytesIO(wire), headers=hdrs, status=status, preload_content=False,
+                                           decode_content=False)      # as the requests adapter asks urllib3 for it
     r.encoding = get_encoding_from_headers(r.headers)
     r.reason = "OK" if status < 400 else "Error"
     return r
@@ -79,7 +88,8 @@ class FakeIndex:
     """One simple index: {project: {filename: bytes}}; pages list files with relative links and sha256 fragments."""
 
     def __init__(self, base, projects, with_hash=True, faults=None, served_at=None, attrs=None, files_dir="files",
-                 content_type=None):
+                 content_type=None, compress=False):
+        self.compress = compress             # the server compresses what it sends (Content-Encoding: gzip)
         self.base = base.rstrip("/")
         self.attrs = dict(attrs or {})       # filename -> extra attribute text of its anchor (data-requires-python="...")
         self.files_dir = files_dir           # the directory the files are kept in (any characters a server may use)
@@ -111,7 +121,7 @@ class FakeIndex:
             fn = url[len(files_base):].split("#")[0]
             for files in self.projects.values():
                 if fn in files:
-                    return FakeResponse(url, 200, files[fn])
+                    return FakeResponse(url, 200, files[fn], compress=self.compress)
             return FakeResponse(url, 404, b"not found")
         m = re.match(re.escape(self.base) + r"/([^/]+)/$", url)
         if m:
@@ -128,7 +138,7 @@ class FakeIndex:
                         rows.append('<a href="%s"%s>%s</a><br/>' % (self.hrefs[fn], extra, fn))
                     page = "<!DOCTYPE html><html><head><meta charset=\"utf-8\"></head><body><h1>Links for %s</h1>%s</body></html>" % (pname, "\n".join(rows))
                     final = url if not self.served_at else self.served_at + "/" + m.group(1) + "/"
-                    return FakeResponse(final, 200, page.encode("utf-8"), self.content_type)
+                    return FakeResponse(final, 200, page.encode("utf-8"), self.content_type, compress=self.compress)
             return FakeResponse(url, 404, b"<html>404</html>")
         return FakeResponse(url, 404, b"<html>404</html>")
 
